@@ -1,2 +1,119 @@
-(** Property C07 — placeholder until the cost proofs land *)
-From MP4 Require Import Loop.
+(** * Property C07 — parsing always terminates, with work linear in the input length
+
+    "Opening any input of n bytes completes after a number of stream operations, bytes
+    transferred and CPU time bounded by a fixed linear function of n; no input makes the reader
+    loop without consuming input.  Each subsequent sample read or accessor call likewise completes
+    within work bounded linearly in n plus the sample's size."
+
+    Statements only; proofs in [Base/Cost.v] (the metered Hoare logic), [Proofs/CostLeaf*.v]
+    (leaf decoders), [Proofs/CostLoop.v] (the child-box loop), [Proofs/CostCont.v],
+    [Proofs/CostBoxes.v], [Proofs/CostMp4a.v], [Proofs/CostTree*.v] (containers by nesting level),
+    [Proofs/CostOpen.v], [Proofs/CostSample.v].
+
+    Reading the statements:
+    - [runm c s (meter0 None)] interprets the model [c] of a library call on the stream [s] with
+      all meters at zero and no I/O fault armed; it returns the result, the final stream and the
+      meters: [m_ops] stream calls ([read_exact] of a nonzero length, [seek], [stream_position]),
+      [m_bytes] bytes moved by reads, [m_steps] iterations of loops that touch no stream.
+    - the model's loops carry fuel, one unit per iteration; [OutOfFuel] is the result when it runs
+      out.  "Terminates" is: with [fuel > n] (any such fuel) the result is never [OutOfFuel] —
+      the loops of the Rust code end after at most that many iterations.  The nested descriptor
+      loops of esds run on fuel computed from their own (clamped) size, not on the reader's.
+    - [bytes_ok data = true]: the list elements are bytes; [lenN data < 2^62]: positions are
+      computed in [u64] by the Rust code.  The size argument of [read_header] is the true length.
+    - the constants are explicit numerals: [open_A = 71501198298319716],
+      [open_B = 280396856095800].  They are generous (the crude constant bound of the hvcC arrays,
+      about 1.1e12, is doubled or quadrupled at each of the eight nesting levels).
+    - what the meters do NOT see: the CPU work of the pure sample-table lookups that precede the
+      seek of [read_sample] (they are total functions of the parsed tables in the model, finding D53
+      is about their cost) and of the accessors.  The sample read is therefore stated for the stream
+      work, the allocation and termination. *)
+From MP4 Require Import Cost Reader CostLoop CostOpen CostSample CostProps CostWitness.
+From MP4 Require Track.
+Open Scope list_scope.
+Open Scope N_scope.
+
+Definition C07_statement : Prop :=
+  (* opening a file *)
+  (forall data m fuel, bytes_ok data = true -> lenN data < 2 ^ 62 -> lenN data < N.of_nat fuel ->
+     let '(r, _, mt) := runm (open_fuel fuel m (lenN data)) (stream_at data 0) (meter0 None) in
+     r <> OutOfFuel /\ linear_open_bound (lenN data) mt)
+  (* opening further fragments against an opened file *)
+  /\ (forall data m rd fuel, bytes_ok data = true -> lenN data < 2 ^ 62 -> lenN data < N.of_nat fuel ->
+     let '(r, _, mt) := runm (open_fragment_fuel fuel m rd (lenN data)) (stream_at data 0) (meter0 None) in
+     r <> OutOfFuel /\ linear_open_bound (lenN data) mt)
+  (* reading a sample: two stream calls, at most the sample's bytes, which exist in the input *)
+  /\ (forall m rd tid sid data p,
+     let '(r, _, mt) := runm (rd_read_sample m rd tid sid) (stream_at data p) (meter0 None) in
+     r <> OutOfFuel /\ m_ops mt <= 2 /\ m_bytes mt <= lenN data /\ m_steps mt = 0
+     /\ (forall t sz, tracks_get tid (rd_tracks rd) = Some t ->
+                      Track.sample_size (track_view t) sid = Ok sz -> m_bytes mt <= sz)).
+
+Theorem C07 : C07_statement.
+Proof. exact c07_all. Qed.
+Print Assumptions C07.
+
+(** ** The parts, by name *)
+Theorem C07_open_terminates : forall data m fuel,
+  bytes_ok data = true -> lenN data < 2 ^ 62 -> lenN data < N.of_nat fuel ->
+  fst (fst (runm (open_fuel fuel m (lenN data)) (stream_at data 0) (meter0 None))) <> OutOfFuel.
+Proof. exact open_terminates. Qed.
+
+Theorem C07_open_cost : forall data m fuel,
+  bytes_ok data = true -> lenN data < 2 ^ 62 -> lenN data < N.of_nat fuel ->
+  let mt := snd (runm (open_fuel fuel m (lenN data)) (stream_at data 0) (meter0 None)) in
+  m_ops mt <= open_A * lenN data + open_B
+  /\ m_bytes mt <= open_A * lenN data + open_B
+  /\ m_steps mt <= open_A * lenN data + open_B
+  /\ m_alloc_max mt <= open_Al * lenN data + open_Bl
+  /\ m_alloc_sum mt <= open_Al * lenN data + open_Bl.
+Proof. exact open_cost. Qed.
+
+Theorem C07_read_sample_terminates : forall m r tid sid data p,
+  fst (fst (runm (rd_read_sample m r tid sid) (stream_at data p) (meter0 None))) <> OutOfFuel.
+Proof. exact read_sample_terminates. Qed.
+
+(** "no input makes the reader loop without consuming input": in every child-box loop, a child
+    whose decoder keeps its contract leaves the stream at least [max 1 s] bytes after the position
+    of its header (zero-size headers break the loop) *)
+Theorem C07_loop_progress : forall d, bytes_ok d = true -> lenN d < 2 ^ 62 ->
+  forall (Acc R : Type) (size : N) (dispatch : nat -> N -> boxtype -> N -> Acc -> prog Acc),
+  (Acc -> N -> R) -> forall a b al bl : N, size < 2 ^ 62 ->
+  (forall f cur name s acc p, p = cur + 8 \/ p = cur + 16 -> p <= lenN d -> 1 <= s -> s <= size ->
+     fuel_ok d f p -> ispec d (dispatch f cur name s acc) p s (a * s + b) (al * s + bl)) ->
+  forall f cur name s acc p r p' k,
+  p = cur + 8 \/ p = cur + 16 -> p <= lenN d -> 1 <= s -> s <= size -> fuel_ok d f p ->
+  mrun (dispatch f cur name s acc) d p = (Ok r, p', k) -> cur + s <= p' /\ cur + 1 <= p'.
+Proof. exact loop_progress. Qed.
+
+(** ** Non-vacuity: the meters of concrete runs *)
+
+(** the 885-byte test file of Reader.v opens with fuel 886: 334 stream calls, 811 bytes, 1 step *)
+Example C07_open_test_file :
+  let data := reader_test_file in
+  let '(r, _, mt) := runm (open_fuel 886 Dbg (lenN data)) (stream_at data 0) (meter0 None) in
+  lenN data = 885 /\ is_ok r = true /\ m_ops mt = 334 /\ m_bytes mt = 811 /\ m_steps mt = 1
+  /\ linear_open_bound (lenN data) mt.
+Proof. vm_compute. repeat split; intros H; discriminate H. Qed.
+
+(** ... and with one unit of fuel it does not: the fuel is what bounds the iterations *)
+Example C07_fuel_matters :
+  fst (fst (runm (open_fuel 1 Dbg (lenN reader_test_file)) (stream_at reader_test_file 0) (meter0 None)))
+  = OutOfFuel.
+Proof. vm_compute. reflexivity. Qed.
+
+(** reading sample 2 of track 1 (20 bytes at offset 58): one seek, one read *)
+Example C07_read_sample_test_file :
+  match fst (fst (runm (open_fuel 886 Dbg 885) (stream_at reader_test_file 0) (meter0 None))) with
+  | Ok rd =>
+      let '(r, _, mt) := runm (rd_read_sample Dbg rd 1 2) (stream_at reader_test_file 0) (meter0 None) in
+      is_ok r = true /\ m_ops mt = 2 /\ m_bytes mt = 20 /\ m_steps mt = 0
+  | _ => False
+  end.
+Proof. vm_compute. repeat split; reflexivity. Qed.
+
+(** the family that was quadratic before the esds fix (62 516 calls at 3 120 bytes) is linear now *)
+Example C07_esds_family :
+  open_ops (esds_witness 5 384) = 251 /\ open_ops (esds_witness 10 770) = 486
+  /\ open_ops (esds_witness 20 1540) = 956.
+Proof. vm_compute. repeat split; reflexivity. Qed.
